@@ -91,7 +91,7 @@ class Graph:
         self.split = split
         self.succ = {}
         targets = set()
-        self.nedges = 0
+        self.nedges = printed = 0
         for line in res.out.splitlines():
             if not line.startswith('"EDGE '):
                 continue
@@ -100,14 +100,20 @@ class Graph:
             except ValueError:
                 raise core.MachineryError("unparsable EDGE line: " + line[:200])
             ksrc, kdst = json.dumps(src), json.dumps(dst)
-            self.succ.setdefault(ksrc, []).append((opr, kdst, bad))
+            edge = (opr, kdst, bad)
+            printed += 1
+            # states that differ only in what the VIEW keeps but Abs drops
+            # print the same abstract edge more than once
+            if edge not in self.succ.setdefault(ksrc, []):
+                self.succ[ksrc].append(edge)
+                self.nedges += 1
             self.succ.setdefault(kdst, [])
             targets.add(kdst)
-            self.nedges += 1
-        if self.nedges != res.generated - sum(1 for k in self.succ if k not in targets):
+        ninit = sum(1 for k in self.succ if k not in targets)
+        if res.generated - printed != ninit:
             raise core.MachineryError(
-                f"transition dump incomplete: {self.nedges} edges, "
-                f"{res.generated} states generated")
+                f"transition dump incomplete: {printed} edges printed, "
+                f"{res.generated} states generated, {ninit} initial states")
         for lst in self.succ.values():
             lst.sort(key=lambda e: (e[0][0], e[1]))
         self.inits = sorted(k for k in self.succ if k not in targets)
@@ -159,11 +165,9 @@ def _case_of(graph, init, path, cid, origin):
 def _schedules(graph, per3, cover_cap, rnd, next_id, quick):
     '''All schedules of <= 2 runs; for 3 runs `per3` uniformly drawn schedules
     per configuration plus schedules through edges not yet covered.
-    Quick tier: in the 'multiple' scheme only configurations with identical
-    kernels and no/an identical earlier file are replayed (no action of that
-    scheme reads the kernel version, it only labels the written content).'''
+'''
     cases, info = [], {"all": 0, "sampled": 0, "cover": 0, "paths3": 0,
-                       "configurations": 0, "configurations_not_replayed": 0}
+                       "configurations": 0}
     covered = set()
 
     def add(init, path, origin):
@@ -178,9 +182,6 @@ def _schedules(graph, per3, cover_cap, rnd, next_id, quick):
     for init in graph.inits:
         scheme, pre, ver, _, pcs = json.loads(init)[:5]
         nruns = sum(1 for p in pcs if p != "off")
-        if quick and scheme == "multiple" and (set(ver) != {1} or pre == 2):
-            info["configurations_not_replayed"] += 1
-            continue
         info["configurations"] += 1
         if nruns <= 2 or graph.count(init) <= per3:
             for path in graph.all_paths(init):
@@ -259,22 +260,29 @@ def _prepare():
     sink = io.StringIO()
     with contextlib.redirect_stdout(sink):
         info = shim.parse_subject(core.REPO)
+        blob = shim.kernel_tree_blob(info)
         refs = {}
         for ver in (1, 2):
-            tmp = core.mktemp("pv-c29-ref-")
-            try:
-                shim.set_config(tmp, "multiple")
-                str(shim.make_psy(info, ver).gen)
-                names = os.listdir(tmp)
-                if names != [shim.SUBJECT["base"] + "_0_mod.f90"]:
-                    raise core.MachineryError(f"reference run wrote {names}")
-                with open(os.path.join(tmp, names[0])) as fin:
-                    refs[ver] = fin.read()
-            finally:
-                shutil.rmtree(tmp, ignore_errors=True)
+            outs = []
+            for use_blob in (None, blob):
+                tmp = core.mktemp("pv-c29-ref-")
+                try:
+                    shim.set_config(tmp, "multiple")
+                    code = str(shim.make_psy(info, ver, use_blob).gen)
+                    names = os.listdir(tmp)
+                    if names != [shim.SUBJECT["base"] + "_0_mod.f90"]:
+                        raise core.MachineryError(f"reference run wrote {names}")
+                    with open(os.path.join(tmp, names[0])) as fin:
+                        outs.append((code, fin.read()))
+                finally:
+                    shutil.rmtree(tmp, ignore_errors=True)
+            if outs[0] != outs[1]:
+                raise core.MachineryError("a PSy object built on the pickled kernel "
+                                          "parse tree differs from a re-parsed one")
+            refs[ver] = outs[0][1]
     if refs[1] == refs[2] or not refs[1]:
         raise core.MachineryError("kernel versions are not distinguishable")
-    _PREP["info"], _PREP["refs"] = info, refs
+    _PREP["info"], _PREP["refs"], _PREP["blob"] = info, refs, blob
 
 
 def _replay_chunk(cases):
@@ -283,7 +291,7 @@ def _replay_chunk(cases):
     for case in cases:
         try:
             with contextlib.redirect_stdout(sink):
-                out.append(shim.replay(case, _PREP["info"], _PREP["refs"]))
+                out.append(shim.replay(case, _PREP["info"], _PREP["refs"], _PREP["blob"]))
         except shim.Stall as err:
             out.append({"id": case["id"], "stall": str(err)})
         except Exception as err:      # pylint: disable=broad-except
@@ -553,22 +561,29 @@ def run(tier):
             {"trace": _brief(t), "tlc": diverged[t["id"]]}
             for t in traces if t["id"] in diverged][:3]
     predicted = confirmed = unpredicted = 0
+    tally = {}
     for trace in sorted(traces, key=lambda t: t["id"]):
         case = by_id[trace["id"]]
         verdict = verdicts.get(trace["id"])
         predicted += bool(case["model_bad"])
         if verdict is None:
-            print(f"VERDICT trace={trace['id']} ok") if trace["id"] == 0 else None
+            if trace["id"] == 0:
+                print("VERDICT trace=0 origin=tlc-counterexample ok (the real runs "
+                      "do not reproduce the model's counter-example)")
             continue
         confirmed += bool(case["model_bad"])
         unpredicted += not case["model_bad"]
         clause = ",".join(sorted(verdict["v"]))
         known = out.violation(_brief(trace), clause, verdict["w"])
-        if trace["id"] == 0 or known is None:
+        tally[(clause, known)] = tally.get((clause, known), 0) + 1
+        if trace["id"] == 0 or (known is None and tally[(clause, known)] <= 5):
             print(f"VERDICT trace={trace['id']} origin={case['origin']} "
                   f"scheme={trace['scheme']} ver={trace['ver'][:trace['nruns']]} "
                   f"pre={trace['pre']} sched={trace['sched']} fails={clause} "
                   f"finding={known}")
+    for (clause, known), num in sorted(tally.items(), key=str):
+        print(f"VERDICTS failing={clause} finding={known} traces={num}")
+    cov["failing_clause_tally"] = [[c, k, n] for (c, k), n in sorted(tally.items(), key=str)]
     cov["model_predicted_violating_schedules"] = predicted
     cov["predicted_and_confirmed_by_real_trace"] = confirmed
     cov["real_violations_not_predicted_by_model"] = unpredicted
